@@ -740,6 +740,7 @@ def status_never_aborts(ctx, rule):
 
 
 def run(ctx):
+    ctx.rule('R03.14', 'fields read from a diff entry exist for every op that the surrounding op tests still allow (field table from the op_* constructors)', floor=10)
     ctx.rule('R03.13', 'name binding: every global name a function refers to is bound at module level or builtin, and every local is assigned on every path before it is read', floor=6)
     ctx.rule('R03.12', 'every exactly resolved call binds against its callee\'s signature (no missing/unknown/surplus argument on any arm)', floor=4)
     ctx.rule('R03.11', 'the exit status of the external text-merge tool never aborts the merge: no raise/assert reachable for a status in 0..127', floor=4)
@@ -752,3 +753,5 @@ def run(ctx):
     call_compat(ctx, 'R03.12', ['nbdime.merging.', 'nbdime.prettyprint'], 'the merge aborts with an internal error for the inputs that reach this arm')
     from ..names import name_binding
     name_binding(ctx, 'R03.13', ['nbdime.merging.', 'nbdime.prettyprint'])
+    from ..opfields import check_op_fields
+    check_op_fields(ctx, 'R03.14', ['nbdime.merging.'])
